@@ -559,7 +559,7 @@ def _truediv_result_type(*dtypes: ArrayOrScalar) -> np.dtype[Any]:
     dtype = _np_result_dtype(*dtypes)
     # See: test_true_divide in numpy/core/tests/test_ufunc.py
     # pylint: disable=no-member
-    if dtype.kind in "iu":
+    if dtype.kind in "iub":
         return np.dtype(np.float64)
     else:
         return dtype
